@@ -28,21 +28,3 @@ Definition always_applies (fb : flat) (f : nat) : bool :=
 
 Definition wf_layout (fb : flat) : bool :=
   forallb (fun f => is_complex fb f || always_applies fb f) (fl_act fb) && nodupb (fl_act fb).
-
-(** [Gen.decode] keys its result by factor name: the names (or hidden-name
-    objects) of the factors of [act_design] must be pairwise distinct for the
-    result to determine one list per factor. *)
-Definition act_keys_distinct (fb : flat) : bool :=
-  let fix go (l : list nat) : bool :=
-      match l with
-      | [] => true
-      | f :: r =>
-        negb (existsb (fun g =>
-                         match factor_at fb f, factor_at fb g with
-                         | Some fd, Some gd =>
-                           if ff_hidden fd || ff_hidden gd then false
-                           else String.eqb (ff_name fd) (ff_name gd)
-                         | _, _ => false
-                         end) r) && go r
-      end in
-  go (fl_act fb).
